@@ -221,6 +221,25 @@ Proof.
   - apply Forall_app. split; [apply Forall_rev; assumption | constructor; [lia | constructor]].
 Qed.
 
+(* GIV_ExtensionrandIter: `order` coefficients, each canonical in the base field (whatever the floating-point scaling gives) *)
+Definition Ext_randiter_stmt : Prop :=
+  forall (P : Z -> Prop) init n size s, (forall x, P (init x)) ->
+    length (fst (ext_randiter n init size s)) = n /\ Forall P (fst (ext_randiter n init size s)).
+Lemma ext_randiter_spec : Ext_randiter_stmt.
+Proof.
+  intros P init n size. induction n; intros s H; cbn [ext_randiter].
+  - cbn. split; [reflexivity | constructor].
+  - destruct (IHn (lcg_next s) H) as [H1 H2].
+    destruct (ext_randiter n init size (lcg_next s)) as [cs s2]. cbn [fst length] in *.
+    split; [lia | constructor; [apply H | assumption]].
+Qed.
+(* the sampling size kept by the constructor never exceeds the characteristic *)
+Lemma ext_size_bound size ch : 0 < ch -> 0 <= size -> 0 < ext_size size ch <= ch.
+Proof.
+  intros Hc Hs. unfold ext_size. destruct (Z.gtb_spec size ch); cbn [orb]; [lia|].
+  destruct (Z.eqb_spec size 0); lia.
+Qed.
+
 (* ---------------------------------------------------------------- RecInt::rand *)
 Lemma ru_bits_pos k : 0 < ru_bits k.
 Proof. induction k; cbn [ru_bits]; lia. Qed.
